@@ -44,10 +44,13 @@ def findings():
         A = cola.SelfAdjoint(ops.Identity((3, 3), np.float64))
         Q, T, _ = lanczos(A, np.array([1., 1., 1.]), max_iters=3)
         Q = np.asarray(Q.to_dense())
+        # the overwritten columns hold the un-normalised product result (norm ~1e-47), not unit vectors; (loss of orthogonality
+        # alone would not single this defect out: for Identity every start is an eigenvector, see lanczos_reltol_first_step)
+        dev = float(np.abs(np.linalg.norm(Q, axis=0) - 1).max())
         err = float(np.abs(Q.T @ Q - np.eye(Q.shape[1])).max())
-        return err > 1e-6, f"columns={Q.shape[1]} max|Q^T Q - I|={err:.3g}"
+        return dev > 1e-6, f"columns={Q.shape[1]} max| ||q_j|| - 1 |={dev:.3g} max|Q^T Q - I|={err:.3g}"
     probe("lanczos_alias_identity",
-          "lanczos on an operator whose product returns its argument (Identity): the in-place updates of the product result overwrite the basis column it aliases; Q is not orthonormal",
+          "lanczos on an operator whose product returns its argument (Identity): the in-place updates of the product result overwrite the basis column it aliases; returned columns are not unit vectors",
           alias, "lanczos(SelfAdjoint(Identity((3,3),float64)), [1,1,1], max_iters=3)")
 
     def reltol():
